@@ -226,6 +226,8 @@ CONSTRAINED = [
     ("constraint-violated:named-constraint:let-of-a-name", "let q :: cc =\n    sv;"),
     ("constraint-violated:named-constraint:tuple-field", "let q = {\n    k :: cc = \"s\",\n    z = 2,\n};"),
     ("constraint-violated:let-bound-exemplar:tuple-field", "let q = {\n    k :: ex = \"s\",\n    z = 2,\n};"),
+    ("constraint-violated:let-bound-exemplar:module-out-expression", "let q = module {\n    x = \"s\",\n} => (mod.x :: ex) {\n    let y = 1;\n};"),
+    ("constraint-violated:named-constraint:module-out-expression", "let q = module {\n    x = \"s\",\n} => (mod.x :: cc) {\n    let y = 1;\n};"),
 ]
 
 
@@ -273,7 +275,7 @@ def work(chunk):
         routes = ("eval", "build")
         if desc[2] == 1 and desc[1] in CLI_NESTS:
             routes = ("eval", "build", "cli")       # what the real `ucg build` prints, for a sample of the nesting positions
-        if ":tuple-field" in desc[0]:
+        if ":tuple-field" in desc[0] or ":module-out-expression" in desc[0]:
             routes = tuple(r for r in routes if r != "eval")     # only the static checker vets a tuple field's constraint
         for route in routes:
             base_pos = None
